@@ -129,33 +129,43 @@ PC_LABEL = {
 }
 
 
-def label_script(states):
-    """Sequentialized, label-aligned form of a witness: each task, in the order in which the tasks
-    made their last step, runs alone until it stands where it stands in the window ("task>>fn|kind|k")."""
+def label_script(states, sequential=False):
+    """Label-aligned form of a witness.  The witness is cut into segments of consecutive steps of one
+    task; each segment becomes "task>>fn|kind|k": run the task until it has been suspended k times (counted
+    over its whole life) in front of an operation of that class and stands in front of one now.  With
+    sequential=True every task instead runs alone, in the order of the tasks' last steps, to where it
+    stands in the window."""
     settled = [st for st in states if not pending(st)]
     if len(settled) < 2:
         return None
-    last_move = {}
-    pend = {}     # task -> list of pcs it was suspended at (after each of its visible steps)
-    for i, (a, b) in enumerate(zip(settled, settled[1:])):
+    moves = []          # (task, pc it is suspended at afterwards or 'done')
+    for a, b in zip(settled, settled[1:]):
         for t in b['stk']:
             if b['stk'][t] != a['stk'][t]:
-                last_move[t] = i
-                pc = b['stk'][t][0]['pc'] if b['stk'][t] else 'done'
-                pend.setdefault(t, []).append(pc)
-    final = settled[-1]
+                fr = b['stk'][t]
+                moves.append((t, fr[0]['pc'] if fr and fr[0]['pc'] != 'Fault' else 'done'))
+    counts = {}
+    entries = []        # (task, label class or None, absolute count)
+    for (t, pc) in moves:
+        lab = PC_LABEL.get(pc)
+        if lab:
+            counts[(t, lab)] = counts.get((t, lab), 0) + 1
+        entry = (t, lab, counts.get((t, lab), 0)) if lab else (t, None, 0)
+        if entries and entries[-1][0] == t:
+            entries[-1] = entry
+        else:
+            entries.append(entry)
+    if sequential:
+        lastidx = {}
+        for i, e in enumerate(entries):
+            lastidx[e[0]] = i
+        entries = [entries[i] for i in sorted(lastidx.values())]
     script = []
-    for t in sorted(last_move, key=lambda x: last_move[x]):
-        fr = final['stk'][t]
-        if not fr or fr[0]['pc'] == 'Fault':
+    for (t, lab, k) in entries:
+        if lab is None:
             script.append('%s>>done|x|1' % t)
-            continue
-        pc = fr[0]['pc']
-        if pc not in PC_LABEL:
-            return None
-        lab = PC_LABEL[pc]
-        k = sum(1 for q in pend.get(t, []) if PC_LABEL.get(q) == lab)
-        script.append('%s>>%s|%s|%d' % (t, lab[0], lab[1], max(1, k)))
+        else:
+            script.append('%s>>%s|%s|%d' % (t, lab[0], lab[1], max(1, k)))
     return script
 
 
@@ -271,10 +281,11 @@ def run(ctx):
                 cut = rng.randrange(max(1, len(sched) // 2), len(sched) + 1)
                 add_run(f, sched[:cut], 'random', inv + ':prefix')
             # label-aligned, sequentialized replay of the window (robust against added/removed operations)
-            scr = label_script([s for (_a, s) in tr])
-            if scr:
-                for fin in ('stick', 'rr', 'seq'):
-                    add_run(f, scr, fin, inv + ':aligned')
+            for seq in (False, True):
+                scr = label_script([s for (_a, s) in tr], sequential=seq)
+                if scr:
+                    for fin in ('stick', 'rr'):
+                        add_run(f, scr, fin, inv + (':aligned-seq' if seq else ':aligned'))
             # drift tolerance: a change to the code that adds or removes a shared operation shifts the
             # step counts of the witness; replay it also with the last two segments one step longer/shorter
             segs = []
